@@ -13,6 +13,7 @@ recursion on its trip count.  `rec.argsort()` is only ever applied to a permutat
 where it is the inverse permutation (the predecessor array); the model `pred` searches the index.
 -/
 import Rl4co.Core.Basic
+import Rl4co.Core.Sort
 
 namespace Rl4co.Improve
 
@@ -165,6 +166,22 @@ def pdpMask (gs : Nat) (vt : Nat → Nat) (p first second : Nat) : Bool :=
   let d := p + gs / 2
   !(decide (vt first % gs > vt second % gs) || first == p || first == d || second == p || second == d)
 
+/-! ### `_random_action` as a relation (every action it can emit)
+
+`logits[~mask] = -1e20; softmax; multinomial(1)`: in float32 the masked entries get probability exactly 0,
+so the sampled FLAT index `k` is one whose mask entry is true; the action is `(k // gs, k % gs)`. -/
+
+/-- 2-opt: all actions `_random_action` can emit -/
+def randomActions2 (n : Nat) : List (Nat × Nat) :=
+  ((List.range (n * n)).filter (fun k => mask2 (k / n) (k % n))).map (fun k => (k / n, k % n))
+
+/-- PDP: `selected_node = ((rand * gs) // 2) % (gs // 2)` is some index below `gs / 2`; then a flat index of
+`get_mask(selected_node + 1, td)` whose entry is true -/
+def randomActionsPdp (gs : Nat) (vt : Nat → Nat) : List (Nat × Nat × Nat) :=
+  (List.range (gs / 2)).flatMap (fun pi =>
+    ((List.range (gs * gs)).filter (fun k => pdpMask gs vt (pi + 1) (k / gs) (k % gs))).map
+      (fun k => (pi, k / gs, k % gs)))
+
 /-! ### `_step`: cost, best-so-far bookkeeping (identical in both environments) -/
 
 /-- `get_costs`: Σ_j D j (rec j) -/
@@ -198,16 +215,9 @@ def step {A : Type} (n : Nat) (D : Nat → Nat → Int) (op : Rec → A → Rec)
 
 /-! ### checkers -/
 
-def insertSorted (x : Nat) : List Nat → List Nat
-  | [] => [x]
-  | y :: ys => if x ≤ y then x :: y :: ys else y :: insertSorted x ys
-def sortNat : List Nat → List Nat
-  | [] => []
-  | x :: xs => insertSorted x (sortNat xs)
-
 /-- `TSPkoptEnv.check_solution_validity`: `sort(rec_best) == arange` -/
 def checkKopt (n : Nat) (rec : Rec) : Bool :=
-  sortNat ((List.range n).map rec) == List.range n
+  sortedIsRange n ((List.range n).map rec)
 
 /-- `PDPRuinRepairEnv.check_solution_validity`: permutation test, then the `visited_time` walk and
 `visited_time[1 : gs/2+1] < visited_time[gs/2+1 :]` (elementwise). -/
